@@ -46,7 +46,7 @@ func (f *Frame) instr(b *ssa.BasicBlock, bi *BInfo, idx int, ins ssa.Instruction
 		case *types.Slice:
 			s := f.val(x.X)
 			f.safety("index", bi, sAnd(sLe("0", idxT.S), sLt(idxT.S, slLen(s.S))), "index in range: "+x.String())
-			f.locs[x] = g.elemLoc(slBase(s.S), sAdd(slOff(s.S), idxT.S), u.Elem())
+			f.locs[x] = g.elemLoc(slBase(s.S), slOff(s.S), idxT.S, u.Elem())
 		case *types.Pointer:
 			at := u.Elem().Underlying().(*types.Array)
 			if l, ok := f.locs[x.X]; ok {
@@ -54,11 +54,11 @@ func (f *Frame) instr(b *ssa.BasicBlock, bi *BInfo, idx int, ins ssa.Instruction
 				_ = l
 				g.note("indexing of an embedded array in %s is not modelled (havoc)", fnDisplay(f.fn))
 				ref := g.freshConst("arrobj", "Int")
-				f.locs[x] = g.elemLoc(ref, idxT.S, at.Elem())
+				f.locs[x] = g.elemLoc(ref, "0", idxT.S, at.Elem())
 			} else {
 				ref := f.val(x.X)
 				f.safety("index", bi, sAnd(sLe("0", idxT.S), sLt(idxT.S, fmt.Sprint(at.Len()))), "index in range: "+x.String())
-				f.locs[x] = g.elemLoc(ref.S, idxT.S, at.Elem())
+				f.locs[x] = g.elemLoc(ref.S, "0", idxT.S, at.Elem())
 			}
 		}
 	case *ssa.UnOp:
@@ -460,6 +460,7 @@ func (f *Frame) sliceInstr(bi *BInfo, x *ssa.Slice) {
 		} else {
 			f.safety("index", bi, sAnd(sLe("0", lo), sLe(lo, hi), sLe(hi, cp)), "slice bounds: "+x.String())
 		}
+		g.resliceLemma(u.Elem(), slOff(s.S), lo)
 		f.setVal(x, mk(mkSlice(slBase(s.S), sAdd(slOff(s.S), lo), sSub(hi, lo), sSub(cp, lo)), "Slice", x.Type()))
 	case *types.Pointer: // pointer to array
 		at := u.Elem().Underlying().(*types.Array)
